@@ -9,6 +9,7 @@ work list.  Nothing here knows about numpy or lbfgsb.
 from __future__ import annotations
 
 import os
+import sys
 import time
 from fractions import Fraction
 
@@ -37,6 +38,8 @@ class BudgetExceeded(BaseException):
 
 
 DEFAULT_TIMEOUT_MS = int(os.environ.get("SYMX_TIMEOUT_MS", "20000"))
+# set by mode-F harnesses: queries are over IEEE binary64 terms (QF_FP)
+FP_SOLVER = [False]
 
 
 _SLOWDIR = os.environ.get("SYMX_SLOWDIR")
@@ -89,7 +92,7 @@ def _is_linear_hint(constraints):
     return True
 
 
-def solve(constraints, stats: Stats, timeout_ms=None, want_model=True):
+def solve(constraints, stats: Stats, timeout_ms=None, want_model=True, _no_abstraction=False):
     """One fresh, non-incremental query.  Returns (status, model|None)."""
     timeout_ms = timeout_ms or DEFAULT_TIMEOUT_MS
     cs = [c for c in constraints if not (isinstance(c, bool) and c)]
@@ -97,6 +100,47 @@ def solve(constraints, stats: Stats, timeout_ms=None, want_model=True):
         return "unsat", None
     cs = [c for c in cs if not isinstance(c, bool)]
     t0 = time.time()
+    if FP_SOLVER[0]:
+        if not _no_abstraction:
+            # cheap first: unsat of a term-depth abstraction implies unsat of the query
+            for k in (2, 3):
+                try:
+                    acs = abstract_fp(cs, k)
+                except Exception:
+                    break
+                sa = z3.SolverFor("QF_FP")
+                sa.set("timeout", 8000)
+                sa.add(*acs)
+                ra = sa.check()
+                if ra == z3.unsat:
+                    dt = time.time() - t0
+                    stats.time += dt
+                    stats.slowest = max(stats.slowest, dt)
+                    stats.unsat += 1
+                    stats.by_abstraction = getattr(stats, "by_abstraction", 0) + 1
+                    return "unsat", None
+        s = z3.SolverFor("QF_FP")
+        s.set("timeout", timeout_ms)
+        s.add(*cs)
+        if os.environ.get("SYMX_FPLOG"):
+            sys.stderr.write("[fp] full query want_model=%s n=%d after %.1fs of abstraction\n" % (want_model, len(cs), time.time() - t0))
+        if not want_model:
+            # status only: an external z3 with a hard wall-clock limit (the in-process timeout is not honoured
+            # during bit-blasting)
+            r = _fp_external(s, max(5, int(timeout_ms / 1000)))
+        else:
+            r = s.check()
+        dt = time.time() - t0
+        stats.time += dt
+        stats.slowest = max(stats.slowest, dt)
+        if r == z3.sat:
+            stats.sat += 1
+            return "sat", (s.model() if want_model else None)
+        if r == z3.unsat:
+            stats.unsat += 1
+            return "unsat", None
+        stats.unknown += 1
+        return "unknown", None
     lin = _is_linear_hint(cs)
     s = z3.SolverFor("QF_LRA") if lin else z3.SolverFor("QF_NRA")
     s.set("timeout", timeout_ms)
@@ -129,6 +173,89 @@ def solve(constraints, stats: Stats, timeout_ms=None, want_model=True):
         return "unsat", None
     stats.unknown += 1
     return "unknown", None
+
+
+def abstract_fp(constraints, k):
+    """Replace every floating-point sub-term nested deeper than k arithmetic operations (counted from the
+    atoms' operands) by a fresh variable, consistently."""
+    repl = {}
+    counter = [0]
+
+    memo = {}
+
+    def height(e):
+        i = e.get_id()
+        if i in memo:
+            return memo[i]
+        if not e.children() or z3.is_fp_value(e):
+            h = 0
+        else:
+            h = 1 + max(height(c) for c in e.children())
+        memo[i] = h
+        return h
+
+    def walk(e, depth):
+        if z3.is_fp(e) and e.children() and not z3.is_fp_value(e):
+            if depth >= k and height(e) >= 1:
+                i = e.get_id()
+                if i not in repl:
+                    counter[0] += 1
+                    repl[i] = (e, z3.FP("abs!%d_%d" % (k, counter[0]), e.sort()))
+                return
+            for c in e.children():
+                walk(c, depth + 1)
+            return
+        for c in e.children():
+            walk(c, depth if not z3.is_fp(e) else depth + 1)
+    for c in constraints:
+        if not isinstance(c, bool):
+            walk(c, 0)
+    pairs = list(repl.values())
+    out = []
+    for c in constraints:
+        out.append(c if isinstance(c, bool) else z3.substitute(c, *pairs))
+    return out
+
+
+def _vars_of(e):
+    out = set()
+    seen = set()
+    stack = [e]
+    while stack:
+        t = stack.pop()
+        i = t.get_id()
+        if i in seen:
+            continue
+        seen.add(i)
+        if z3.is_const(t) and t.decl().kind() == z3.Z3_OP_UNINTERPRETED:
+            out.add(t.decl().name())
+        stack.extend(t.children())
+    return out
+
+
+def _fp_external(solver, seconds):
+    import subprocess
+    import tempfile
+    fd, path = tempfile.mkstemp(suffix=".smt2", prefix="symx_fp_")
+    try:
+        with os.fdopen(fd, "w") as f:
+            f.write(solver.to_smt2())
+        try:
+            p = subprocess.run(["z3-new", "-T:%d" % seconds, "-smt2", path], capture_output=True, text=True, timeout=seconds + 10)
+            out = p.stdout.strip().splitlines()
+            first = out[0].strip() if out else ""
+        except (subprocess.TimeoutExpired, FileNotFoundError):
+            first = "unknown"
+        if first == "sat":
+            return z3.sat
+        if first == "unsat":
+            return z3.unsat
+        return z3.unknown
+    finally:
+        try:
+            os.remove(path)
+        except OSError:
+            pass
 
 
 def z3val_to_fraction(v):
@@ -201,6 +328,15 @@ class Ctx:
             self.inputs[name] = v
         return v
 
+    def fp(self, name):
+        """declare a symbolic IEEE binary64 input"""
+        if name in self.names:
+            raise ValueError("duplicate symbol " + name)
+        self.names.add(name)
+        v = z3.FP(name, z3.Float64())
+        self.inputs[name] = v
+        return v
+
     def fresh_bool(self, hint="b"):
         self.fresh_counter += 1
         return z3.Bool("%s!%d" % (hint, self.fresh_counter))
@@ -219,6 +355,14 @@ class Ctx:
     def _ensure_model(self):
         if self.model is not None and self.model_valid:
             return True
+        if FP_SOLVER[0] and not getattr(self, "fp_want_witness", False):
+            st, m = solve(self.pc, self.stats, self.timeout_ms, want_model=False)
+            if st == "unsat":
+                raise PathAbort("path condition unsat")
+            if st == "unknown":
+                self.maybe_infeasible = True
+            self.fp_feasible = st == "sat"
+            return False
         st, m = solve(self.pc, self.stats, self.timeout_ms)
         if st == "sat":
             self.model, self.model_valid = m, True
@@ -259,6 +403,14 @@ class Ctx:
                 self.model_valid = False
             return val
         # fresh decision
+        if FP_SOLVER[0]:
+            # bit-precise mode: a feasibility query per fork costs minutes; fork blindly and let the end-of-path
+            # satisfiability check (one query) discard infeasible paths
+            self.alternatives.append((list(self.decisions) + [False], True))
+            self._commit(core, cid, True != neg, e)
+            self.decisions.append(True)
+            self.model_valid = False
+            return True
         mv = self._model_eval(e) if (self.model_valid or self._ensure_model()) else None
         if mv is not None:
             self.stats.model_hits += 1
@@ -323,7 +475,7 @@ class Ctx:
                 neg = not neg
             self.decided[core.get_id()] = not neg
             self.keep.append(core)
-        if not check:
+        if not check or FP_SOLVER[0]:
             self.model_valid = False
             return
         if self.model is not None and self.model_valid:
@@ -382,7 +534,34 @@ class Ctx:
             rec["status"] = "unsat"
             self.obligations.append(rec)
             return rec
+        if FP_SOLVER[0]:
+            # cheap sound attempts first: term-depth abstraction + cone-of-influence slice of the path condition
+            # (dropping constraints and abstracting terms only weakens: unsat carries over to the full query)
+            for k in (2, 3):
+                try:
+                    abs_all = abstract_fp(self.pc + [v], k)
+                except Exception:
+                    break
+                va = abs_all[-1]
+                V = _vars_of(va)
+                sl = [c for c in abs_all[:-1] if not isinstance(c, bool) and _vars_of(c) <= V]
+                st0, _ = solve(sl + [va], self.stats, 8000, want_model=False, _no_abstraction=True)
+                if st0 == "unsat":
+                    rec["status"] = "unsat"
+                    rec["decided_by"] = "abstraction k=%d + slice (%d of %d constraints)" % (k, len(sl), len(self.pc))
+                    self.obligations.append(rec)
+                    return rec
         st, m = solve(self.pc + [v], self.stats, timeout_ms or self.timeout_ms)
+        if st == "unknown" and FP_SOLVER[0]:
+            # term-depth abstraction: sub-terms deeper than k become fresh variables; unsat of the abstraction
+            # implies unsat of the original (a sat answer of the abstraction decides nothing)
+            for k in (1, 2, 3):
+                abs_cs = abstract_fp(self.pc + [v], k)
+                st2, _ = solve(abs_cs, self.stats, min(timeout_ms or self.timeout_ms or DEFAULT_TIMEOUT_MS, 60000), want_model=False, _no_abstraction=True)
+                if st2 == "unsat":
+                    st = "unsat"
+                    rec["decided_by"] = "term-depth abstraction k=%d" % k
+                    break
         rec["status"] = st
         if st == "sat":
             rec["model"] = self.model_values(m)
@@ -398,6 +577,13 @@ class Ctx:
             return out
         for name, v in self.inputs.items():
             val = m.eval(v, model_completion=True)
+            if z3.is_fp(val):
+                from .scalar_fp import fp_to_float
+                try:
+                    out[name] = fp_to_float(val).hex()
+                except Exception:
+                    out[name] = str(val)
+                continue
             fr = z3val_to_fraction(val)
             if fr is not None:
                 out[name] = "%d/%d" % (fr.numerator, fr.denominator)
